@@ -90,6 +90,31 @@ func (s *VStats) NonTrivialCase(c interface{}) {
 	}
 }
 
+// NonTrivialKeyed is NonTrivialCase with an explicit distinctness key (e.g. kind+path+mutation) and sample.
+func (s *VStats) NonTrivialKeyed(key string, sample interface{}) {
+	if s.frozen {
+		return
+	}
+	h := fnv.New64a()
+	h.Write([]byte(key))
+	k := h.Sum64()
+	if s.nontriv[k] {
+		return
+	}
+	s.nontriv[k] = true
+	if len(s.Samples) < maxSamples {
+		b, err := json.Marshal(sample)
+		if err != nil {
+			panic(err)
+		}
+		if len(b) > maxSampleBytes {
+			t, _ := json.Marshal(string(b[:maxSampleBytes]) + "...(truncated)")
+			b = t
+		}
+		s.Samples = append(s.Samples, json.RawMessage(b))
+	}
+}
+
 func (s *VStats) flush() {
 	path := os.Getenv("VERIF_STATS")
 	if path == "" {
